@@ -6,6 +6,7 @@
 #define VDIG 4
 #endif
 #define VAL_NARROW 1
+#define V_MEM_MAX_SET 64	/* bn_calc_naf clears the tail of the caller array with memset */
 #include "bn_common.h"
 #include "spec_stubs.h"
 
@@ -22,7 +23,7 @@ struct in_s { struct sbn a, b, m, g; bn_digit_t d; uint16_t bits; uint8_t naf[NA
 #include "verif_in.h"
 
 static val_t o_gcd(val_t x, val_t y) {
-	for (unsigned i = 0; i < GCD_ITER && y != 0; i++) { val_t t = x % y; x = y; y = t; }
+	for (unsigned i = 0; i < GCD_ITER && y != 0; i++) { val_t t = o_mod(x, y); x = y; y = t; }
 	return (y == 0 ? x : 0);
 }
 
@@ -36,6 +37,12 @@ void harness(void) {
 	const val_t va = bn_value(&a), vb = bn_value(&b), vm = bn_value(&m);
 	int r;
 	(void)vb; (void)vm; (void)r; (void)g;
+#ifdef VMAX	/* value bound of the job (keeps the data-dependent loops short); stated in the job's shape */
+	V_ASSUME(va <= (VMAX) && vb <= (VMAX));
+#endif
+#ifdef MMAX
+	V_ASSUME(vm <= (MMAX));
+#endif
 
 #if defined(A_SQRT)	/* SQRTFN in {bn_sqrt1 (= bn_sqrt), bn_sqrt2, bn_sqrt3, bn_sqrt5} */
 #ifdef KF_SQRT_ODD_BITLEN	/* known finding: bn_sqrt1/2 start from 2^(L-2) which is not a power of four when the bit length L is odd */
@@ -67,6 +74,188 @@ void harness(void) {
 	V_ASSERT(bn_value(&a) == va && bn_value(&b) == vb, "bn_gcd: operands unchanged");
 	if (va != 0 && vb != 0 && va != vb) V_WITNESS("gcd: general case");
 	V_WITNESS("gcd");
+#elif defined(A_MODOP)	/* modular layer; MOP selects the function */
+	bn_digit_t d = IN.d;
+	(void)d;
+#if MOP == 1		/* bn_mod_add: operands reduced (bn, n < m) */
+	V_ASSUME(vm != 0 && va < vm && vb < vm);
+#ifdef KF_MOD_ADD_CARRY	/* known finding: bn + n >= 2^capacity loses the carry (modulus using the top capacity bit) */
+	V_ASSUME(((val_t)(va + vb) >> ((size_t)(CA) * W)) == 0);
+#endif
+	r = bn_mod_add(&a, &b, &m, NULL);
+	val_t exp = o_mod(va + vb, vm);
+#elif MOP == 2		/* bn_mod_sub: operands reduced */
+	V_ASSUME(vm != 0 && va < vm && vb < vm);
+	r = bn_mod_sub(&a, &b, &m, NULL);
+	val_t exp = o_mod(va + vm - vb, vm);
+#elif MOP == 3		/* bn_mod_mult */
+	V_ASSUME(vm != 0);
+	r = bn_mod_mult(&a, &b, &m, NULL);
+	val_t exp = o_mod(va * vb, vm);
+#elif MOP == 4		/* bn_mod_square */
+	V_ASSUME(vm != 0);
+	r = bn_mod_square(&a, &m, NULL);
+	val_t exp = o_mod(va * va, vm);
+#elif MOP == 5		/* bn_mod_mult_digit */
+	V_ASSUME(vm != 0);
+#ifdef KF_MULT_DIGIT_23_CARRY
+	if (d == 2 || d == 3) V_ASSUME((((val_t)va * d) >> ((size_t)(CA) * W)) == 0);
+#endif
+	r = bn_mod_mult_digit(&a, d, &m, NULL);
+	val_t exp = o_mod(va * (val_t)d, vm);
+#elif MOP == 6		/* bn_mod_reduce: x -> x if x < m, else (x mod (m-1)) + 1 */
+	V_ASSUME(vm >= 2);
+	r = bn_mod_reduce(&a, &m, NULL);
+	val_t exp = (va < vm) ? va : o_mod(va, vm - 1) + 1;
+#elif MOP == 7		/* bn_mod_exp_digit(bn, e) with e = IN.bits */
+	V_ASSUME(vm >= 2 && IN.bits <= EMAX);	/* outside: modulus 1 (x^0 is returned as 1) */
+	r = bn_mod_exp_digit(&a, IN.bits, &m, NULL);
+	val_t exp = 1;
+	for (unsigned i = 0; i < EMAX; i++) if (i < IN.bits) exp = o_mod(exp * o_mod(va, vm), vm);
+	if (IN.bits == 1) exp = va;	/* documented shortcut: bn^1 = bn, not reduced */
+#elif MOP == 8		/* bn_mod_exp(bn, e, m), e = b */
+	V_ASSUME(vm >= 2 && vb <= EMAX);
+	r = bn_mod_exp(&a, &b, &m, NULL);
+	val_t exp = 1;
+	for (unsigned i = 0; i < EMAX; i++) if (i < vb) exp = o_mod(exp * o_mod(va, vm), vm);
+	if (vb == 1) exp = va;
+#endif
+	if (r != 0) {
+		V_ASSERT(r == EOVERFLOW, "modular op: the only error is EOVERFLOW (an intermediate does not fit the capacity)");
+		V_WITNESS("modop: overflow error");
+		return;
+	}
+	V_ASSERT(bn_repr_ok(&a) && a.count == CA, "modular op: representation invariant");
+	V_ASSERT(bn_value(&a) == exp, "modular op: value == the operation on native integers");
+	V_ASSERT(bn_value(&m) == vm && bn_value(&b) == vb, "modular op: other operands unchanged");
+	V_WITNESS("modop: success");
+
+#elif defined(A_INV)	/* INVFN in {bn_mod_inv_bin (= bn_mod_inv), bn_mod_inv1, bn_mod_inv2}; modulus an odd prime <= MMAX */
+	{
+		static const uint8_t primes[] = { 3, 5, 7, 11, 13, 17, 19, 23, 29, 31, 37, 41, 43, 47, 53, 59, 61, 67, 71, 73, 79, 83, 89, 97,
+		    101, 103, 107, 109, 113, 127, 131, 137, 139, 149, 151, 157, 163, 167, 173, 179, 181, 191, 193, 197, 199, 211, 223,
+		    227, 229, 233, 239, 241, 251 };
+		int isp = 0;
+		for (size_t i = 0; i < sizeof(primes); i++) if (vm == primes[i]) isp = 1;
+		V_ASSUME(isp);
+	}
+	r = INVFN(&a, &m, NULL);
+	if (va == 0 || va >= vm) {
+		V_ASSERT(r == EINVAL, "bn_mod_inv: zero or unreduced argument is refused with EINVAL");
+		V_WITNESS("inv: refused");
+		return;
+	}
+	V_ASSERT(r == 0, "bn_mod_inv succeeds for 0 < bn < m, m an odd prime");
+	V_ASSERT(bn_repr_ok(&a) && a.count == CA, "bn_mod_inv: representation invariant");
+	V_ASSERT(bn_value(&a) < vm && o_mod(bn_value(&a) * va, vm) == 1, "bn_mod_inv: result < m and result * bn == 1 (mod m)");
+	V_WITNESS("inv: success");
+#elif defined(A_LEGENDRE) || defined(A_MODSQRT)	/* modulus an odd prime <= MMAX */
+	{
+		static const uint8_t primes[] = { 3, 5, 7, 11, 13, 17, 19, 23, 29, 31, 37, 41, 43, 47, 53, 59, 61, 67, 71, 73, 79, 83, 89, 97,
+		    101, 103, 107, 109, 113, 127, 131, 137, 139, 149, 151, 157, 163, 167, 173, 179, 181, 191, 193, 197, 199, 211, 223,
+		    227, 229, 233, 239, 241, 251 };
+		int isp = 0;
+		for (size_t i = 0; i < sizeof(primes); i++) if (vm == primes[i]) isp = 1;
+		V_ASSUME(isp);
+	}
+	val_t ar = o_mod(va, vm);
+	int qr = 0;	/* is a a non-zero square mod m? (exhaustive over the residues, m <= MMAX) */
+	for (val_t x = 1; x <= (MMAX) / 2; x++) if (x < vm && o_mod(x * x, vm) == ar) qr = 1;
+#ifdef A_LEGENDRE
+	r = bn_mod_legendre(&a, &m, NULL);
+	V_ASSERT(r == (ar == 0 ? 0 : (qr ? 1 : -1)) || r == EOVERFLOW, "bn_mod_legendre == Legendre symbol (or EOVERFLOW when an intermediate does not fit)");
+	V_ASSERT(bn_value(&a) == va && bn_value(&m) == vm, "bn_mod_legendre: operands unchanged");
+	if (r == -1) V_WITNESS("legendre: non-residue");
+	if (r == 1 && ar > 1) V_WITNESS("legendre: residue");
+	if (r == EOVERFLOW) V_WITNESS("legendre: overflow error");
+#else
+	r = bn_mod_sqrt(&a, &m, NULL);
+	if (r == 0) {
+		val_t s = bn_value(&a);
+		V_ASSERT(bn_repr_ok(&a) && a.count == CA, "bn_mod_sqrt: representation invariant");
+		V_ASSERT(s < vm && o_mod(s * s, vm) == ar, "bn_mod_sqrt: root < m and root^2 == bn (mod m)");
+		if ((vm & 3) == 3 && ar > 1) V_WITNESS("mod_sqrt: p = 3 mod 4");
+		if ((vm & 7) == 5 && ar > 1) V_WITNESS("mod_sqrt: p = 5 mod 8");
+		if ((vm & 7) == 1 && ar > 1) V_WITNESS("mod_sqrt: p = 1 mod 8 (Tonelli-Shanks)");
+	} else if (r == -1) {
+		V_ASSERT(ar != 0 && !qr, "bn_mod_sqrt: -1 only for non-residues");
+		V_WITNESS("mod_sqrt: non-residue");
+	} else {
+		V_ASSERT(r == EOVERFLOW, "bn_mod_sqrt: the only error is EOVERFLOW");
+		V_WITNESS("mod_sqrt: overflow error");
+	}
+#endif
+
+#elif defined(A_NAF)	/* bn_calc_naf(bn, WND, NAFSZ, arr, &cnt) on an exactly sized array */
+	int8_t *arr = (int8_t *)v_buf(IN.naf, NAFSZ);
+	size_t cnt = 777;
+	size_t nbits = bn_calc_bits(&a);
+#ifdef KF_NAF_TOP_CARRY	/* known finding: the recoding carry out of the capacity is lost (value with all top bits set) */
+	V_ASSUME(((va + ((val_t)1 << (WND - 1))) >> ((size_t)(CA) * W)) == 0);
+#endif
+	r = bn_calc_naf(&a, WND, NAFSZ, arr, &cnt);
+	if (NAFSZ < nbits + 1) {
+		V_ASSERT(r == EOVERFLOW, "bn_calc_naf: array shorter than bits+1 is refused with EOVERFLOW");
+		V_WITNESS("naf: overflow error");
+		return;
+	}
+	V_ASSERT(r == 0 && cnt <= NAFSZ, "bn_calc_naf succeeds, count within the array");
+	V_ASSERT(bn_value(&a) == va, "bn_calc_naf: operand unchanged");
+	{
+		int64_t sum = 0; int ok = 1; size_t last = (size_t)-1;
+		for (size_t i = 0; i < NAFSZ; i++) {
+			int dgt = arr[i];
+			if (i >= cnt && dgt != 0) ok = 0;			/* tail cleared */
+			if (dgt != 0) {
+				if ((dgt & 1) == 0 || dgt >= (1 << (WND - 1)) || dgt <= -(1 << (WND - 1))) ok = 0;	/* odd, |d| < 2^(w-1) */
+				if (last != (size_t)-1 && i - last < WND) ok = 0;	/* at most one non-zero among any w consecutive */
+				last = i;
+			}
+			sum += (int64_t)dgt * ((int64_t)1 << i);
+		}
+		V_ASSERT(ok, "bn_calc_naf: digits odd, |d| < 2^(w-1), non-adjacent within the window, tail zero");
+		V_ASSERT(sum == (int64_t)va, "bn_calc_naf: sum d_i 2^i == value");
+	}
+	V_WITNESS("naf: success");
+
+#elif defined(A_JSF)	/* bn_calc_jsf(a, b, NAFSZ, arr, &cnt, &off) */
+	int8_t *arr = (int8_t *)v_buf(IN.naf, NAFSZ);
+	size_t cnt = 777, off = 777;
+	size_t na = bn_calc_bits(&a), nb = bn_calc_bits(&b), need = 2 * ((na > nb ? na : nb) + 1);
+	r = bn_calc_jsf(&a, &b, NAFSZ, arr, &cnt, &off);
+	if (NAFSZ < need) {
+		V_ASSERT(r == EOVERFLOW, "bn_calc_jsf: array shorter than 2*(bits+1) is refused with EOVERFLOW");
+		V_WITNESS("jsf: overflow error");
+		return;
+	}
+	V_ASSERT(r == 0 && off == need / 2 && cnt <= off, "bn_calc_jsf succeeds: offset == bits+1, count <= offset");
+	V_ASSERT(bn_value(&a) == va && bn_value(&b) == vb, "bn_calc_jsf: operands unchanged");
+	{
+		int64_t s0 = 0, s1 = 0; int ok = 1;
+		for (size_t i = 0; i < NAFSZ / 2; i++) {
+			if (i >= cnt || i >= off) break;
+			int d0 = arr[i], d1 = arr[i + off];
+			if (d0 < -1 || d0 > 1 || d1 < -1 || d1 > 1) ok = 0;
+			s0 += (int64_t)d0 * ((int64_t)1 << i);
+			s1 += (int64_t)d1 * ((int64_t)1 << i);
+		}
+		V_ASSERT(ok, "bn_calc_jsf: digits in {-1,0,1}");
+		V_ASSERT(s0 == (int64_t)va && s1 == (int64_t)vb, "bn_calc_jsf: both rows denote their operand");
+	}
+	V_WITNESS("jsf: success");
+
+#elif defined(A_COMBO)	/* bn_combo_column_get(bn, bit_off, wnd_bits, wnd_count): bits off, off-wc, ... (wnd_bits of them), MSB first */
+	size_t wb = IN.d & 7, wc = (IN.bits >> 8) & 7, off = IN.bits & 0xff;
+	V_ASSUME(wb >= 1 && wb <= 4 && wc >= 1 && wc <= 4 && off >= (wb - 1) * wc && off < 40);
+	bn_digit_t got = bn_combo_column_get(&a, off, wb, wc), want = 0;
+	for (size_t i = 0; i < 4; i++) {
+		if (i >= wb) break;
+		size_t o = off - i * wc;
+		want = (bn_digit_t)(want << 1);
+		if (o < (size_t)(CA) * W && ((va >> o) & 1)) want |= 1;
+	}
+	V_ASSERT(got == want, "bn_combo_column_get == the selected column of bits (stale digits not read)");
+	V_WITNESS("combo column");
 #else
 #error "no A_* selected"
 #endif
